@@ -53,7 +53,7 @@ SettleW(rule, w) == IF w = FREE THEN 2 ELSE B(Fills(rule, w))
 \* ---- scenario features (exact predicates; used to steer generation and as known-finding signatures) -------
 Collinear(c) == \A i, j, k \in 1..Len(c) : Cross(c[i], c[j], c[k]) = 0          \* zero-area contour (spike or point)
 HasDegenerate(path) == \E k \in 1..Len(path) : Collinear(path[k])
-Edges(path) == {<<path[k][i], Nxt(path[k], i)>> : k \in 1..Len(path), i \in 1..K}
+Edges(path) == UNION {{<<path[k][i], Nxt(path[k], i)>> : i \in 1..Len(path[k])} : k \in 1..Len(path)}
 \* two edges overlap in more than one point (collinear, interiors intersect)
 Overlap(e, f) == /\ e[1] # e[2] /\ f[1] # f[2]
                  /\ Cross(e[1], e[2], f[1]) = 0 /\ Cross(e[1], e[2], f[2]) = 0
@@ -63,12 +63,12 @@ Overlap(e, f) == /\ e[1] # e[2] /\ f[1] # f[2]
                     IN MaxI(elo, flo) < MinI(ehi, fhi)
 SharedOverlap(a, b) == \E e \in Edges(a), f \in Edges(b) : Overlap(e, f)
 EdgeAt(a, k, i) == <<a[k][i], Nxt(a[k], i)>>
-EdgeIdx(a) == {<<k, i>> : k \in 1..Len(a), i \in 1..K}
+EdgeIdx(a) == UNION {{<<k, i>> : i \in 1..Len(a[k])} : k \in 1..Len(a)}
 SelfOverlap(a) == \E x \in EdgeIdx(a), y \in EdgeIdx(a) : x # y /\ Overlap(EdgeAt(a, x[1], x[2]), EdgeAt(a, y[1], y[2]))
 \* a vertex lies in the relative interior of an edge (of either operand): snapping / splitting is exercised
-Verts(path) == {path[k][i] : k \in 1..Len(path), i \in 1..K}
+Verts(path) == UNION {{path[k][i] : i \in 1..Len(path[k])} : k \in 1..Len(path)}
 TJunction(a, b) == \E v \in Verts(a) \cup Verts(b), e \in Edges(a) \cup Edges(b) : e[1] # e[2] /\ v # e[1] /\ v # e[2] /\ OnSeg(e[1], e[2], v)
-BBox(path) == LET xs == {path[k][i][1] : k \in 1..Len(path), i \in 1..K} ys == {path[k][i][2] : k \in 1..Len(path), i \in 1..K}
+BBox(path) == LET xs == {v[1] : v \in Verts(path)} ys == {v[2] : v \in Verts(path)}
               IN <<SetMin(xs), SetMin(ys), SetMax(xs), SetMax(ys)>>
 BBDisjoint(a, b) == LET x == BBox(a) y == BBox(b) IN x[3] < y[1] \/ y[3] < x[1] \/ x[4] < y[2] \/ y[4] < x[2]
 Features == [pdeg |-> HasDegenerate(p), qdeg |-> HasDegenerate(q), shared |-> SharedOverlap(p, q),
